@@ -171,6 +171,12 @@ func mixCommands() []database.Command {
 		k++
 		out = append(out, database.Command{Command: fmt.Sprintf("zq%dx %s item", k, w), Description: strings.Title(w) + " the item in question", Keywords: []string{w}}) //nolint
 	}
+	// typo matches that start at the very first / end at the very last character of the matched text
+	// (sensitive to white space that survives at the ends of a query)
+	k++
+	out = append(out, database.Command{Command: "frobnicate-now", Description: "qq", Keywords: []string{"edge"}})
+	k++
+	out = append(out, database.Command{Command: fmt.Sprintf("zq%dx qq", k), Description: "ends with frobnicate", Keywords: []string{"edge"}})
 	// decoys
 	for j := 0; j < 3; j++ {
 		k++
@@ -349,6 +355,12 @@ func runEntry(c *corpusT, s scenario, q string) (out runOut, first *runOut) {
 		out.hits = toHits(c.db.Search(q, s.Limit))
 	case "pipeline":
 		out.hits = toHits(c.db.SearchWithPipelineOptions(q, o))
+	case "legacynlp": // deprecated public entry points, still part of the engine's API
+		out.hits = toHits(c.db.SearchWithNLP(q, o))
+	case "legacyfuzzy":
+		out.hits = toHits(c.db.SearchWithFuzzy(q, o))
+	case "legacyoptions":
+		out.hits = toHits(c.db.SearchWithOptions(q, o))
 	case "cached":
 		cdb := database.VerifNewCachedDatabase(c.db, 50, 0)
 		f := runOut{hits: toHits(cdb.SearchWithOptionsAndCache(q, o))}
